@@ -331,6 +331,17 @@ func (app *App) txDeliverer() txDeliverer {
 
 		handler := txCtx.Router.Handler(tx.Type)
 
+		// a transaction in a block has not necessarily passed this node's mempool check;
+		// validate it (signatures, fee, message fields) the way CheckTx does before executing it
+		if _, err := handler.Validate(txCtx, *tx); err != nil {
+			app.logger.Debug("Deliver Tx invalid: ", err.Error())
+			app.Context.deliver.DiscardTxSession()
+			return ResponseDeliverTx{
+				Code: CodeNotOK.uint32(),
+				Log:  err.Error(),
+			}
+		}
+
 		gas := txCtx.State.ConsumedGas()
 
 		ok, response := handler.ProcessDeliver(txCtx, tx.RawTx)
